@@ -289,6 +289,11 @@ func (s *ShapeIndexIterator) Prev() bool {
 
 // End positions the iterator at the end of the index.
 func (s *ShapeIndexIterator) End() {
+	// Like Begin, make sure that pending updates have been applied: the number
+	// of cells is not known (and must not be read) before that.
+	if !s.index.IsFresh() {
+		s.index.maybeApplyUpdates()
+	}
 	s.position = len(s.index.cells)
 	s.refresh()
 }
